@@ -24,6 +24,7 @@ const (
 	evChoose               // n-way pure nondeterminism (scheduler, select, harness choice)
 	evAssume               // PC-adding assumption (no alternatives)
 	evAssert               // outcome of an obligation query (val 0 = held, 1 = can fail; no alternatives)
+	evValue                // a model value picked by the solver (u), recorded so that replays use the same one
 )
 
 type event struct {
@@ -31,9 +32,12 @@ type event struct {
 	val    int  // evBranch: 0 = true, 1 = false; evChoose: index
 	nalt   int  // number of alternatives (1 = forced)
 	pcAdds bool // this event pushed a solver level
+	u      uint64
+	stop   bool // remaining alternatives are not explored here (below the subtree root, or donated to another worker)
 }
 
 type Obligation struct {
+	Seconds    float64
 	ID         string
 	Reached    int // paths on which it was evaluated
 	Concrete   int // evaluated to a concrete true
@@ -97,6 +101,7 @@ type Result struct {
 	Terms        int
 	Known        []string
 	Concordance  []ConcRec
+	cut          bool
 }
 
 type Explorer struct {
@@ -156,37 +161,77 @@ func (ex *Explorer) inconclusive(msg string) {
 	}
 }
 
-// Run explores the path tree depth-first by re-execution.
+// Run explores the whole path tree depth-first by re-execution (single worker).
 func (ex *Explorer) Run() *Result {
 	ex.start = time.Now()
-	defer func() {
-		ex.Res.Seconds = time.Since(ex.start).Seconds()
-		ex.Res.Stats = ex.S.Stats
-		ex.Res.Terms = ex.C.NumTerms()
-		ex.S.Close()
-	}()
+	ex.runSubtree(nil, nil)
+	ex.finish()
+	return ex.Res
+}
+
+func (ex *Explorer) finish() {
+	ex.Res.Seconds = time.Since(ex.start).Seconds()
+	ex.Res.Stats = ex.S.Stats
+	ex.Res.Terms = ex.C.NumTerms()
+	ex.S.Close()
+}
+
+// runSubtree explores every path that extends the given prefix. With a pool,
+// budgets are shared and pending alternatives are donated to idle workers.
+func (ex *Explorer) runSubtree(start []event, pool *Pool) {
+	ex.prefix = make([]event, len(start))
+	copy(ex.prefix, start)
+	for i := range ex.prefix {
+		ex.prefix[i].stop = true
+	}
+	ex.lastTr = nil
+	ex.Res.Exhausted = false
 	for {
-		if ex.Lim.MaxPaths > 0 && ex.Res.Paths >= ex.Lim.MaxPaths {
-			ex.inconclusive(fmt.Sprintf("path budget %d exhausted before the path tree was covered", ex.Lim.MaxPaths))
-			return ex.Res
-		}
-		if ex.Lim.MaxSeconds > 0 && time.Since(ex.start).Seconds() > ex.Lim.MaxSeconds {
-			ex.inconclusive(fmt.Sprintf("time budget %.0fs exhausted before the path tree was covered", ex.Lim.MaxSeconds))
-			return ex.Res
+		if pool != nil {
+			if why := pool.overBudget(); why != "" {
+				ex.inconclusive(why)
+				return
+			}
+		} else {
+			if ex.Lim.MaxPaths > 0 && ex.Res.Paths >= ex.Lim.MaxPaths {
+				ex.inconclusive(fmt.Sprintf("path budget %d exhausted before the path tree was covered", ex.Lim.MaxPaths))
+				return
+			}
+			if ex.Lim.MaxSeconds > 0 && time.Since(ex.start).Seconds() > ex.Lim.MaxSeconds {
+				ex.inconclusive(fmt.Sprintf("time budget %.0fs exhausted before the path tree was covered", ex.Lim.MaxSeconds))
+				return
+			}
 		}
 		tr := ex.runOnce()
 		ex.Res.Paths++
-		// next prefix
+		if pool != nil {
+			pool.countPath()
+			if pool.hungry() {
+				// donate the shallowest pending alternative(s)
+				for i := len(start); i < len(tr); i++ {
+					if !tr[i].stop && tr[i].val+1 < tr[i].nalt {
+						for v := tr[i].val + 1; v < tr[i].nalt; v++ {
+							job := make([]event, i+1)
+							copy(job, tr[:i+1])
+							job[i].val = v
+							pool.put(job)
+						}
+						tr[i].stop = true
+						break
+					}
+				}
+			}
+		}
 		i := len(tr) - 1
 		for i >= 0 {
-			if tr[i].val+1 < tr[i].nalt {
+			if !tr[i].stop && tr[i].val+1 < tr[i].nalt {
 				break
 			}
 			i--
 		}
 		if i < 0 {
 			ex.Res.Exhausted = true
-			return ex.Res
+			return
 		}
 		np := make([]event, i+1)
 		copy(np, tr[:i+1])
@@ -274,6 +319,11 @@ type Machine struct {
 	deadlineCtx []Iface
 	observed    []obsTerm
 	violatedHere bool
+
+	onSync      Value // harness environment hook run before every synchronisation operation of the main thread
+	inEnv       bool
+	onBlock     Value // harness hook run when no thread can run (terminal state)
+	terminalRan bool
 }
 
 type obsTerm struct {
@@ -433,6 +483,11 @@ func (m *Machine) pickThread() *Thread {
 		}
 	}
 	if len(run) == 0 {
+		if m.onBlock != nil && !m.terminalRan && !m.threads[0].done {
+			// terminal state: let the harness inspect it (it may also release threads)
+			m.terminalRan = true
+			return m.newThread("at-terminal", m.onBlock, nil)
+		}
 		m.terminal()
 		return nil
 	}
@@ -465,7 +520,7 @@ func (m *Machine) terminal() {
 		m.endWhy = "ok"
 		return
 	}
-	if m.allowBlock {
+	if m.allowBlock || m.onBlock != nil {
 		m.endWhy = "blocked-allowed"
 		return
 	}
@@ -511,7 +566,29 @@ func (m *Machine) yield() {
 	}
 }
 
-func (m *Machine) syncPoint() {
+func (m *Machine) inTarget(fn *ssa.Function) bool {
+	for f := fn; f != nil; f = f.Parent() {
+		if f.Pkg != nil {
+			return f.Pkg == m.ex.Pkg
+		}
+		if o := f.Origin(); o != nil && o.Pkg != nil {
+			return o.Pkg == m.ex.Pkg
+		}
+	}
+	return false
+}
+
+// syncPoint is called before every synchronisation operation; at is the frame
+// that performs it (the caller of a sync intrinsic, or the frame executing a
+// channel instruction). The environment hook only fires for operations
+// performed directly by code of the package under test: inside library code
+// (e.g. context) locks may be held that a real second goroutine would wait for.
+func (m *Machine) syncPoint(at *frame) {
+	if m.onSync != nil && !m.inEnv && m.cur != nil && m.cur.ID == 0 && at != nil && m.inTarget(at.fn) {
+		m.inEnv = true
+		m.call(m.cur.top, token.NoPos, m.onSync, nil)
+		m.inEnv = false
+	}
 	if m.ex.Mode == "conc" && len(m.threads) > 1 {
 		live := 0
 		for _, t := range m.threads {
@@ -597,6 +674,33 @@ func (m *Machine) Choose(n int, tag string) int {
 	m.pos++
 	m.trace = append(m.trace, event{kind: evChoose, val: 0, nalt: n})
 	return 0
+}
+
+// modelValue returns a value of t under some model of the path condition.
+// The choice is recorded in the trace: replays must see the same value.
+func (m *Machine) modelValue(t *smt.Term, what string) uint64 {
+	if m.pos < len(m.ex.prefix) {
+		e := m.ex.prefix[m.pos]
+		if e.kind != evValue {
+			panic(fmt.Sprintf("engine: replay mismatch at event %d (want value)", m.pos))
+		}
+		m.pos++
+		m.trace = append(m.trace, e)
+		return e.u
+	}
+	if r := m.S.Check(); r != smt.Sat {
+		if r == smt.Unsat {
+			panic(pathEnd{"infeasible"})
+		}
+		panic(m.unsupported(what + " must be concrete (solver could not produce a model)"))
+	}
+	vals, err := m.S.Values([]*smt.Term{t})
+	if err != nil {
+		panic(m.unsupported(what + " must be concrete (" + err.Error() + ")"))
+	}
+	m.pos++
+	m.trace = append(m.trace, event{kind: evValue, nalt: 1, u: vals[0]})
+	return vals[0]
 }
 
 // Assume adds a constraint; an infeasible path ends silently.
@@ -729,6 +833,13 @@ func (m *Machine) violate(id, pos, msg string, inputs []NondetRec) {
 		}
 	}
 	if n < lim {
+		if m.ex.Debug {
+			for _, t := range m.threads {
+				if !t.done {
+					msg += fmt.Sprintf("\n          thread %s: %s", t.Name, m.stackString(t))
+				}
+			}
+		}
 		m.ex.Res.Violations = append(m.ex.Res.Violations, Violation{Obligation: id, Pos: pos, Msg: msg, Inputs: inputs, Choices: m.choices()})
 	}
 }
@@ -767,11 +878,13 @@ func (m *Machine) obligation(cond *smt.Term, id, pos, msg string) bool {
 		o.Pos = pos
 	}
 	var r smt.Result
+	tq := time.Now()
 	if cond.IsFalse() {
 		r = m.S.Check() // need a model of the path condition
 	} else {
 		r = m.S.Check(m.C.Not(cond))
 	}
+	o.Seconds += time.Since(tq).Seconds()
 	out := 0
 	switch r {
 	case smt.Unsat:
